@@ -26,4 +26,5 @@ def run(fb, rep, tier, cfg):
     e4.globals_(fb, rep)
     e4.share_or_copy(fb, rep)
     e4.cloner_closed(fb, rep)
+    e4.cloner_helpers(fb, rep)
     e4.userdata_clones(fb, rep)
